@@ -164,6 +164,14 @@ def modifierCast (mods modd : Modifier) (destLvalue : Bool) : Option (Option Mod
     else some (some modd)
   else some Option.none
 
+/-- the `else if primary_cast.is_some() && modd != TypeModifier::default()` arm of the `modifier_cast` block
+    (fix 828cdd4): when source and destination modifiers are equal (`mc = none`) but a primary cast produces the
+    unmodified destination type, the shared modifier is applied again -/
+def sharedModifierCast (pc : Option PrimaryCast) (modd : Modifier) (mc : Option Modifier) : Option Modifier :=
+  match mc with
+  | some m => some m
+  | Option.none => if pc.isSome ∧ modd ≠ {} then some modd else Option.none
+
 /-- `ImplicitConversion::find(source, dest, module)` -/
 def find (source dest : ETy) : Except String (Option Conversion) :=
   -- `(&Rvalue, &Lvalue) => return Err(())`
@@ -179,7 +187,7 @@ def find (source dest : ETy) : Except String (Option Conversion) :=
     | .ok (some pc) =>
       match modifierCast source.ty.mod dest.ty.mod destLvalue with
       | Option.none => .ok Option.none
-      | some mc => .ok (some ⟨source, valueCast, dc, pc, mc⟩)
+      | some mc => .ok (some ⟨source, valueCast, dc, pc, sharedModifierCast pc dest.ty.mod mc⟩)
 
 /-- `ImplicitConversion::get_rank`; `.error` = `panic!("invalid vector cast ..")` -/
 def getRank (c : Conversion) : Except String Rank :=
